@@ -185,6 +185,21 @@ def make_cases(chk, rng, ib, kmac, kenc, accept):
     return cases
 
 
+def admin_cases(chk, rng, ib, kenc, accept):
+    """ An administrative-record bundle (a status report made by a real agent) whose payload is put under a BCB. """
+    n1 = max(b['num'] for b in ib.blocks) + 1
+    pay = [b for b in ib.blocks if b['type'] == 1][0]
+    sc = [[0, 1], [-1, 1]]
+    bcb, enc = S.craft_bcb(chk, ib, kenc, [1], n1, [bytes(rng.getrandbits(8) for _ in range(12))], scope=sc)
+    plain = [(n1, 1, pay['btsd'])]
+    return [
+        Case('admin-under-bcb', S.insert_before_payload(enc, [bcb]), False, [(n1, 1, 'ok')], plain=plain,
+             payload=pay['btsd'] if accept else None),
+        Case('admin-under-bcb-altered', S.insert_before_payload(S.alter_btsd(enc, 1), [bcb]), True, [(n1, 1, 'fail')], plain=plain),
+        Case('admin-plain', list(ib.blocks), False, []),
+    ]
+
+
 def receivers(keys, kmac_bytes, kenc_bytes, rng, accept):
     from pycose.keys import SymmetricKey
     from pycose.keys.keyparam import KpAlg, KpKid, KpKeyOps
@@ -270,6 +285,9 @@ def judge(chk, rec, ans):
     else:
         if not out.delivered:
             what = 'all security blocks verify, yet not delivered'
+            if case.kind == 'admin-under-bcb':
+                what = ('an administrative-record bundle whose payload is under a verifiable BCB is not delivered (%s escapes while the '
+                        'ciphertext is dissected as a record, before the receive chain runs)' % (type(out.escaped).__name__,))
             if case.defect_id == 'noparams':
                 what = ('a security block without the optional parameters field can never be verified: check_secblk iterates '
                         'payload.parameters = None (TypeError), so the bundle is dropped (and, D16, not marked with a security reason)')
@@ -317,6 +335,7 @@ def run(chk):
     from pycose.algorithms import HMAC256, A256GCM
     keys[b'mac'] = SymmetricKey(k=kmac, optional_params={KpAlg: HMAC256, KpKid: b'mac', KpKeyOps: [MacCreateOp, MacVerifyOp]})
     keys[b'enc'] = SymmetricKey(k=kenc, optional_params={KpAlg: A256GCM, KpKid: b'enc', KpKeyOps: [EncryptOp, DecryptOp]})
+    adm = {}
     for bi in range(nb):
         ib, _payload = S.plain_bundle(rng, chk.tier, payload=None if bi else b'attack at dawn', extra=2 - (bi % 2))
         if not [b for b in ib.blocks if b['type'] == 1][0]['btsd']:
@@ -325,6 +344,11 @@ def run(chk):
             rcvs = receivers(keys, kmac, kenc, rng, accept)
             recs = [run_case(chk, case, ib, accept, rcvs, keyhex=dict(mac=kmac.hex(), enc=kenc.hex()))
                     for case in make_cases(chk, rng, ib, kmac, kenc, accept)]
+            if bi < 2:
+                if bi not in adm:
+                    adm[bi] = S.plain_status_report(rng)
+                recs += [run_case(chk, case, adm[bi], accept, rcvs, keyhex=dict(mac=kmac.hex(), enc=kenc.hex()))
+                         for case in admin_cases(chk, rng, adm[bi], kenc, accept)]
             for rec, ans in zip(recs, chk.driver([r['req'] for r in recs])):
                 judge(chk, rec, ans)
 
